@@ -333,3 +333,36 @@ proof fn thm_ok(lm: &LineMap)
 }
 // ---------- the contract the conversion unit (C15, contracts/conv_prelude.rs) assumes is the contract of the functions below:
 // last_line == last, end_col_for_line (existing line) == end_col, pos_for_line_col (valid position) == p4lc, none of them panics ----------
+
+// ---------- bridge: the stand-in contracts of the other units, under the interpretation below ----------
+// The encoder unit (contracts/semtok_prelude.rs) and the conversion unit (contracts/conv_prelude.rs) treat LineMap as an opaque type
+// with uninterpreted u32-typed functions lc / end_col / last / tlen / bnd / p4lc and ASSUME contracts for its methods.  tools/extract_lmap.py
+// copies those assumed contracts textually out of the two preludes on every run (lc -> lc32, ...) and attaches them to wrappers around
+// the REAL functions (`bridge_*`, generated at the end of the unit): Verus proving the wrappers shows that, with the interpretation
+// lc := lc32 etc., every assumption those units make about the line map holds for every line map with wf.
+spec fn lex_le32(a: (u32, u32), b: (u32, u32)) -> bool { a.0 < b.0 || (a.0 == b.0 && a.1 <= b.1) }
+impl LineMap {
+    spec fn lc32(&self, pos: u32) -> (u32, u32) { (self.lc(pos as int).0 as u32, self.lc(pos as int).1 as u32) }
+    spec fn end_col32(&self, line: u32) -> u32 { self.end_col(line as int) as u32 }
+    spec fn last32(&self) -> u32 { self.last() as u32 }
+    spec fn tlen32(&self) -> u32 { self.len }
+    spec fn bnd32(&self, pos: u32) -> bool { self.bnd(pos as int) }
+    spec fn p4lc32(&self, line: u32, col: u32) -> u32 { self.p4lc(line as int, col as int) as u32 }
+}
+proof fn lemma_bridge_line(lm: &LineMap, line: int)
+    requires lm.wf(), 0 <= line <= lm.last()
+    ensures 0 <= lm.end_col(line) <= lm.len, 0 <= lm.last() < u32::MAX
+{
+    assert(ds_ok(lm.ds(line), lm.blen(line)));
+    lemma_fits(lm.ds(line), lm.blen(line), lm.ds(line).len() as int);
+    lemma_dsum_mono(lm.ds(line), 0, lm.ds(line).len() as int);
+    if line < lm.last() { assert(lm.ls()[line + 1] <= lm.ls()[lm.last()]); }
+}
+proof fn lemma_bridge_pos(lm: &LineMap, pos: u32)
+    requires lm.wf(), pos <= lm.len, lm.bnd(pos as int)
+    ensures lm.lc32(pos).0 == lm.lc(pos as int).0, lm.lc32(pos).1 == lm.lc(pos as int).1, lm.lc32(pos).0 <= lm.last32(), lm.lc32(pos).1 <= lm.end_col32(lm.lc32(pos).0),
+        lm.last32() == lm.last(), lm.end_col32(lm.lc32(pos).0) == lm.end_col(lm.lc(pos as int).0)
+{
+    thm_roundtrip(lm, pos as int);
+    lemma_bridge_line(lm, lm.lc(pos as int).0);
+}
